@@ -416,3 +416,273 @@ Fixpoint rec_unicode (v : pyval) : res pyval :=
   | PBytes b => py_to_unicode (PBytes b)
   | _ => Ok v
   end.
+
+(* ====================== JSON decoding (json.loads on a str) ======================
+   The C scanner of CPython's json module, default options (strict=True, no
+   hooks).  Every JSONDecodeError is PErr.  Floats (and NaN / Infinity) are
+   parsed (their characters consumed) but not represented: they set the
+   [flt] flag of the result, which the caller reports as "outside the model".
+   PFuel = the fuel (twice the length of the text + 2) ran out; never observed. *)
+Inductive pres (A : Type) :=
+| POk (a : A) (flt : bool) (rest : list N)
+| PErr
+| PFuel.
+Arguments POk {A} a flt rest.
+Arguments PErr {A}.
+Arguments PFuel {A}.
+
+Definition is_ws (c : N) : bool := (c =? 32) || (c =? 9) || (c =? 10) || (c =? 13).
+Fixpoint skipws (s : list N) : list N :=
+  match s with
+  | c :: t => if is_ws c then skipws t else s
+  | [] => []
+  end.
+
+Fixpoint prefix_of (p s : list N) : bool :=
+  match p, s with
+  | [], _ => true
+  | a :: p', b :: s' => (a =? b) && prefix_of p' s'
+  | _ :: _, [] => false
+  end.
+
+Definition hex4val (a b c d : N) : option N :=
+  match hexval a, hexval b, hexval c, hexval d with
+  | Some w, Some x, Some y, Some z => Some (((w * 16 + x) * 16 + y) * 16 + z)
+  | _, _, _, _ => None
+  end.
+
+Definition simple_escape (e : N) : option N :=
+  if e =? 34 then Some 34 else if e =? 92 then Some 92 else if e =? 47 then Some 47
+  else if e =? 98 then Some 8 else if e =? 102 then Some 12 else if e =? 110 then Some 10
+  else if e =? 114 then Some 13 else if e =? 116 then Some 9 else None.
+
+Definition scons (c : N) (r : pres (list N)) : pres (list N) :=
+  match r with POk l f rest => POk (c :: l) f rest | PErr => PErr | PFuel => PFuel end.
+
+(* scanstring, after the opening quote *)
+Fixpoint pstr (s : list N) : pres (list N) :=
+  match s with
+  | [] => PErr
+  | c :: t =>
+      if c =? 34 then POk [] false t
+      else if c =? 92 then
+        match t with
+        | [] => PErr
+        | e :: t1 =>
+            if e =? 117 then
+              match t1 with
+              | h1 :: h2 :: h3 :: h4 :: t2 =>
+                  match hex4val h1 h2 h3 h4 with
+                  | None => PErr
+                  | Some n =>
+                      if in_range 55296 56319 n then
+                        match t2 with
+                        | b1 :: b2 :: l1 :: l2 :: l3 :: l4 :: t3 =>
+                            if (b1 =? 92) && (b2 =? 117) then
+                              match hex4val l1 l2 l3 l4 with
+                              | Some m =>
+                                  if in_range 56320 57343 m
+                                  then scons (65536 + (n - 55296) * 1024 + (m - 56320)) (pstr t3)
+                                  else scons n (pstr t2)
+                              | None => scons n (pstr t2)
+                              end
+                            else scons n (pstr t2)
+                        | _ => scons n (pstr t2)
+                        end
+                      else scons n (pstr t2)
+                  end
+              | _ => PErr
+              end
+            else
+              match simple_escape e with
+              | Some x => scons x (pstr t1)
+              | None => PErr
+              end
+        end
+      else if c <? 32 then PErr
+      else scons c (pstr t)
+  end.
+
+(* numbers *)
+Definition digit_uint (c : N) (u : Decimal.uint) : Decimal.uint :=
+  if c =? 48 then Decimal.D0 u else if c =? 49 then Decimal.D1 u else if c =? 50 then Decimal.D2 u
+  else if c =? 51 then Decimal.D3 u else if c =? 52 then Decimal.D4 u else if c =? 53 then Decimal.D5 u
+  else if c =? 54 then Decimal.D6 u else if c =? 55 then Decimal.D7 u else if c =? 56 then Decimal.D8 u
+  else Decimal.D9 u.
+Fixpoint read_uint (s : list N) : Decimal.uint * list N :=
+  match s with
+  | c :: t => if is_digit c then let (u, r) := read_uint t in (digit_uint c u, r) else (Decimal.Nil, s)
+  | [] => (Decimal.Nil, [])
+  end.
+Fixpoint skip_digits (s : list N) : list N :=
+  match s with
+  | c :: t => if is_digit c then skip_digits t else s
+  | [] => []
+  end.
+Definition starts_digit (s : list N) : bool := match s with c :: _ => is_digit c | [] => false end.
+
+(* _match_number: [s] starts with '-' or a digit *)
+Definition pnum (s : list N) : pres jv :=
+  let '(neg, s1) := match s with
+                    | c :: t => if c =? 45 then (true, t) else (false, s)
+                    | [] => (false, s)
+                    end in
+  match s1 with
+  | [] => PErr
+  | c :: t =>
+      let ip := if c =? 48 then Some (0, t)
+                else if in_range 49 57 c then let (u, r) := read_uint s1 in Some (N.of_uint u, r)
+                else None in
+      match ip with
+      | None => PErr
+      | Some (n, r) =>
+          (* '.' followed by a digit: fraction *)
+          let '(f1, r1) := match r with
+                           | d :: t' => if (d =? 46) && starts_digit t' then (true, skip_digits t') else (false, r)
+                           | [] => (false, r)
+                           end in
+          (* 'e' | 'E', optional sign, at least one digit: exponent (else backtrack) *)
+          let '(f2, r2) := match r1 with
+                           | e :: t' =>
+                               if (e =? 101) || (e =? 69) then
+                                 let t'' := match t' with
+                                            | sg :: t3 => if ((sg =? 43) || (sg =? 45)) && starts_digit t3 then t3 else t'
+                                            | [] => t'
+                                            end in
+                                 if starts_digit t'' then (true, skip_digits t'') else (false, r1)
+                               else (false, r1)
+                           | [] => (false, r1)
+                           end in
+          if f1 || f2 then POk JNull true r2
+          else POk (JInt (if neg then Z.opp (Z.of_N n) else Z.of_N n)) false r2
+      end
+  end.
+
+Definition lit_null : list N := [110; 117; 108; 108].
+Definition lit_true : list N := [116; 114; 117; 101].
+Definition lit_false : list N := [102; 97; 108; 115; 101].
+Definition lit_nan : list N := [78; 97; 78].
+Definition lit_inf : list N := [73; 110; 102; 105; 110; 105; 116; 121].
+Definition lit_ninf : list N := 45 :: lit_inf.
+
+(* dict[key] = value *)
+Fixpoint jdict_set (k : list N) (v : jv) (d : list (list N * jv)) : list (list N * jv) :=
+  match d with
+  | [] => [(k, v)]
+  | (k', v') :: d' => if list_N_eqb k k' then (k', v) :: d' else (k', v') :: jdict_set k v d'
+  end.
+Definition jdict_of (ps : list (list N * jv)) : list (list N * jv) :=
+  fold_left (fun d kv => jdict_set (fst kv) (snd kv) d) ps [].
+
+Definition starts_char (c : N) (s : list N) : bool := match s with x :: _ => x =? c | [] => false end.
+
+(* scan_once / _parse_array / _parse_object.  [parr] and [pobj] are entered at
+   the first element (resp. key) of a non-empty container. *)
+Fixpoint pval (fuel : nat) (s : list N) : pres jv :=
+  match fuel with
+  | O => PFuel
+  | S f =>
+      match s with
+      | [] => PErr
+      | c :: t =>
+          if c =? 34 then
+            match pstr t with POk x fl r => POk (JStr x) fl r | PErr => PErr | PFuel => PFuel end
+          else if c =? 123 then
+            let t' := skipws t in
+            if starts_char 125 t' then POk (JObj []) false (tl t')
+            else match pobj f t' with
+                 | POk ps fl r => POk (JObj (jdict_of ps)) fl r
+                 | PErr => PErr | PFuel => PFuel
+                 end
+          else if c =? 91 then
+            let t' := skipws t in
+            if starts_char 93 t' then POk (JArr []) false (tl t')
+            else match parr f t' with
+                 | POk l fl r => POk (JArr l) fl r
+                 | PErr => PErr | PFuel => PFuel
+                 end
+          else if c =? 110 then (if prefix_of lit_null s then POk JNull false (skipn 4 s) else PErr)
+          else if c =? 116 then (if prefix_of lit_true s then POk (JBool true) false (skipn 4 s) else PErr)
+          else if c =? 102 then (if prefix_of lit_false s then POk (JBool false) false (skipn 5 s) else PErr)
+          else if c =? 78 then (if prefix_of lit_nan s then POk JNull true (skipn 3 s) else PErr)
+          else if c =? 73 then (if prefix_of lit_inf s then POk JNull true (skipn 8 s) else PErr)
+          else if c =? 45 then (if prefix_of lit_ninf s then POk JNull true (skipn 9 s) else pnum s)
+          else if is_digit c then pnum s
+          else PErr
+      end
+  end
+with parr (fuel : nat) (s : list N) : pres (list jv) :=
+  match fuel with
+  | O => PFuel
+  | S f =>
+      match pval f s with
+      | POk v fl r =>
+          match skipws r with
+          | c :: r2 =>
+              if c =? 93 then POk [v] fl r2
+              else if c =? 44 then
+                match parr f (skipws r2) with
+                | POk l fl' r3 => POk (v :: l) (fl || fl') r3
+                | PErr => PErr | PFuel => PFuel
+                end
+              else PErr
+          | [] => PErr
+          end
+      | PErr => PErr
+      | PFuel => PFuel
+      end
+  end
+with pobj (fuel : nat) (s : list N) : pres (list (list N * jv)) :=
+  match fuel with
+  | O => PFuel
+  | S f =>
+      match s with
+      | q :: t =>
+          if q =? 34 then
+            match pstr t with
+            | POk k flk r =>
+                match skipws r with
+                | col :: r1 =>
+                    if col =? 58 then
+                      match pval f (skipws r1) with
+                      | POk v fl r2 =>
+                          match skipws r2 with
+                          | c :: r3 =>
+                              if c =? 125 then POk [(k, v)] (flk || fl) r3
+                              else if c =? 44 then
+                                match pobj f (skipws r3) with
+                                | POk l fl' r4 => POk ((k, v) :: l) (flk || fl || fl') r4
+                                | PErr => PErr | PFuel => PFuel
+                                end
+                              else PErr
+                          | [] => PErr
+                          end
+                      | PErr => PErr
+                      | PFuel => PFuel
+                      end
+                    else PErr
+                | [] => PErr
+                end
+            | PErr => PErr
+            | PFuel => PFuel
+            end
+          else PErr
+      | [] => PErr
+      end
+  end.
+
+Inductive jres := JOk (v : jv) | JErr | JOutside | JFuel.
+
+(* json.loads(s) for a str s; escape.json_decode is exactly this *)
+Definition json_loads (s : list N) : jres :=
+  if starts_char 65279 s then JErr            (* "Unexpected UTF-8 BOM" *)
+  else
+    match pval (S (S (length s + length s))) (skipws s) with
+    | POk v fl r =>
+        match skipws r with
+        | [] => if fl then JOutside else JOk v
+        | _ :: _ => JErr                      (* "Extra data" *)
+        end
+    | PErr => JErr
+    | PFuel => JFuel
+    end.
